@@ -381,7 +381,13 @@ impl<C> Inner<C> {
     where
         C: Service<ProtocolMessage, Response = ProtocolMessageAck, Error = DispatcherError<E>>,
     {
-        match self.control.call(pkt).await {
+        let result = self.control.call(pkt).await;
+
+        // buffered control messages are released by the io dispatcher's
+        // readiness check, make sure it runs after completed call
+        self.sink.notify_dispatcher();
+
+        match result {
             Ok(item) => {
                 let packet = match item.result {
                     ProtocolMessageKind::Ping => Some(Encoded::Packet(Packet::PingResponse)),
